@@ -167,7 +167,7 @@ func evalTree(rp *reporter, n *node, viaOption bool, levels []int8, st *treeStat
 						t, touched = nt, false
 					}
 					tt := t
-					ci := callInfo{part: "trees", fe: fe.name, family: fe.family, field: fe.field, noWrite: fe.noWrite, msg: feMsg[fi], ctx: variant}
+					ci := callInfo{part: "trees", fe: fe.name, family: fe.family, field: fe.field, noWrite: fe.noWrite, probe: fe.name == probeName, msg: feMsg[fi], ctx: variant}
 					if !isCore {
 						ci.lc = tt.log.Core()
 					}
@@ -324,6 +324,7 @@ func main() {
 		fmt.Sprintf("levels: all 256 int8 values for trees of <= %d nodes, the 14 boundary levels {-128,-4,-3,-2,debug..fatal,invalid,invalid+1,127} for larger trees; Enabled(l) is compared at all 256 values for every tree", fullUpTo),
 		"the shared AtomicLevel only takes the seven named levels and InvalidLevel (zap documents nothing for an AtomicLevel set to another out-of-range value)",
 		"samplers: one whose budget (first = MaxInt32 per tick of 1h) is never exhausted and must be transparent, one that drops every named-level entry (first=0, thereafter=0), and a first-only one (first=1, thereafter=0) driven twice within one tick; which entries a sampler keeps in general is property C11",
+		"a sugared *w call with malformed context (non-string key, dangling key) is a probe for disabled entries only: where no leaf accepts the entry nothing at all may be observed; it is not driven at Panic / Fatal, whose calls must run their terminal action even when disabled and then report the malformed context in Error entries of their own (unchanged zap does; the statement does not say)",
 		"Enabled/LevelOf/Level/V above a dropping sampler are only required to report the wrapped core's levels (Enabled is a level pre-check and cannot know sampling decisions); NewIncreaseLevelCore's validation is judged against that pre-check too",
 		"Panic/Fatal terminal actions are replaced through WithPanicHook/WithFatalHook by a counting no-op so the enumeration survives them; termination is property C06",
 		"lazy With fields: only 'a disabled call below DPanic whose core reports Enabled=false evaluates nothing' is demanded (Logger.check documents that the pre-check is skipped from DPanic upwards); eager With fields are marshaled at construction and are not counted against an entry",
